@@ -176,6 +176,29 @@ def textshape_oracle(run):
     return out
 
 
+def keyword_oracle(run, cases, spec):
+    """Every public call form of the same function is the same function: the
+    argument given by keyword (under the name the function declares) must get
+    the tabulated answer too.  Asked for -150..250, the powers and every label
+    / mutant of the positional sweep."""
+    seq, want = [], []
+    for c, s in zip(cases, spec):
+        if isinstance(c["arg"], int) and not (-150 <= c["arg"] <= 250 or abs(c["arg"]) > 10 ** 20):
+            continue
+        k = dict(c)
+        k["kw"] = True
+        seq.append(k)
+        want.append(s)
+    got = common.run_impl("c20_impl", seq, procs=4)
+    run.coverage["keyword_form_calls"] = len(seq)
+    out = []
+    for c, g, w in zip(seq, got, want):
+        if g != w:
+            out.append(Violation("%s(<its parameter>=%r) (argument given by keyword) gives %s, the STIX 2.1 table gives %s"
+                                 % (c["fn"], c["arg"], g, w), {"kind": "point", "case": c, "impl": g, "spec": w}))
+    return out
+
+
 def order_oracle(run, cases, spec):
     """The conversions are functions of their argument: the answers must not
     depend on what was asked before.  The small domain (-5..105 and every
@@ -259,6 +282,7 @@ def check(run):
     run.violations += order_oracle(run, cases, spec)
     run.violations += nonstring_oracle(run)
     run.violations += textshape_oracle(run)
+    run.violations += keyword_oracle(run, cases, spec)
     run.coverage["exhaustive"] = True
     run.coverage["trusted_base"] += [
         "translators/tr_scales.py (fail-closed AST translator; validated each run by the sweep above)",
